@@ -48,6 +48,7 @@ type drainResult struct {
 	Blocked  int              `json:"blocked"`
 	Steps    int              `json:"steps"`
 	ScriptN  int              `json:"scriptn"`
+	Size2    int              `json:"size2"` // size after an explicit CleanUp (tells a stranded run from a bookkeeping defect)
 	Stranded int              `json:"stranded"`
 	Log      []verifkit.Event `json:"log"`
 }
@@ -124,7 +125,11 @@ func runDrainScenario(sc drainScenario, keepLog bool) drainResult {
 	r := drainResult{T: "run", Sc: sc, Diag: diag, Status: c.cache.drainStatus.Load(), Wbuf: c.cache.writeBuffer.Size(),
 		NA: na.Load(), ND: nd.Load(), Size: c.cache.hashmap.Size(), Max: sc.Max, Drift: s.Drift, Blocked: s.Blocked,
 		Steps: len(s.Log), ScriptN: len(sc.Script)}
-	if r.Status != idle || r.Wbuf != 0 || r.NA != r.ND || r.Size > r.Max {
+	c.CleanUp()
+	r.Size2 = c.cache.hashmap.Size()
+	// the bound counts as "not restored by the protocol" only if an explicit maintenance run does restore it;
+	// otherwise the policy bookkeeping is at fault (C04/C05), not the wake-up protocol
+	if r.Status != idle || r.Wbuf != 0 || r.NA != r.ND || (r.Size > r.Max && r.Size2 <= r.Max) {
 		r.Stranded = 1
 	}
 	if keepLog || r.Stranded == 1 {
